@@ -10,7 +10,7 @@ from ..core.model import AnalysisError, unparse, dotted, walk_no_defs
 from ..core.consts import Folder, is_sym
 from ..core.flow import Flow, node_calls, attr_writes
 from ..core import match as M
-from ._shared import check_inc_iv
+from ._shared import check_inc_iv, check_compression_activation
 
 
 def self_fields(node, skip_log=True):
@@ -345,6 +345,8 @@ def run(prog, chk):
                 a = M.arg(c, None, "sdctr")
                 alts = fl.expand_text(a, n) if a is not None else []
                 chk.ob("R5.sdctr-from-name", fname, alts == ["self.local_cipher.endswith('-ctr')"], fl.where(n), "sdctr <- %s" % alts)
+
+    check_compression_activation(prog, chk, "R8.compression-activation")
 
     # R7 read_all reassembly ------------------------------------------------------------------
     ra = prog.func("Packetizer.read_all")
